@@ -136,10 +136,25 @@ def c20_2(ctx):
     else:
         out.append(ctx.bad("bech32:bc32encode↔bc32decode", "polymod constants: encoder %s, decoder %s (bc32: 0x3fffffff)" % (ce, cd), fe, mod, key="const"))
     se, sd = ast.unparse(fe), ast.unparse(fd)
-    if "bech32_polymod([0] + dd + [0, 0, 0, 0, 0, 0])" in se and "bech32_polymod([0] + res)" in sd:
+    def first_term(fn_):
+        """the first summand of the list handed to bech32_polymod, locals replaced by their definition"""
+        for n_, c in rl.find_calls(fn_, "bech32_polymod"):
+            e = expand(fn_, n_.id, c.args[0], depth=3) if c.args else None
+            while isinstance(e, ast.BinOp) and isinstance(e.op, ast.Add):
+                e = e.left
+            if isinstance(e, ast.Name):
+                e = expand(fn_, n_.id, e, depth=3)
+                while isinstance(e, ast.BinOp) and isinstance(e.op, ast.Add):
+                    e = e.left
+            return ast.unparse(e) if e is not None else None
+        return None
+    pe, pd = first_term(fe), first_term(fd)
+    if pe == "[0]" and pd == "[0]":
         out.append(ctx.ok("bech32:bc32encode↔bc32decode", "both sides prefix the data with [0] (empty HRP expansion)", fe, mod, key="prefix"))
+    elif pe is not None and pd is not None and pe != pd and (pe.startswith("[") or pd.startswith("[")):
+        out.append(ctx.bad("bech32:bc32encode↔bc32decode", "the polymod input prefix differs between encoder (%s) and decoder (%s)" % (pe, pd), fe, mod, key="prefix"))
     else:
-        out.append(ctx.bad("bech32:bc32encode↔bc32decode", "the polymod input prefix differs between encoder and decoder", fe, mod, key="prefix"))
+        out.append(ctx.err("bech32:bc32encode↔bc32decode", "polymod input prefix not recognised: encoder %s, decoder %s" % (pe, pd), fe, mod))
     if "convertbits(data, 8, 5)" in se and "convertbits(res[:-6], 5, 8, False)" in sd:
         out.append(ctx.ok("bech32:bc32encode↔bc32decode", "8→5 with padding on encode, 5→8 without padding over all but the 6 checksum symbols on decode", fe, mod, key="bits"))
     else:
@@ -208,6 +223,25 @@ def c20_4(ctx):
     if not app:
         raise AnalysisError("BCURMulti.parse: payload collection not found")
 
+    # the 1-based position of the current part: `cnt + 1` for enumerate(parts), `cnt` for enumerate(parts, start=1)
+    pos_texts, first_tests = set(), set()
+    it = lp.stmt.iter
+    if isinstance(it, ast.Call) and call_name(it) == "enumerate" and isinstance(lp.stmt.target, ast.Tuple) and isinstance(lp.stmt.target.elts[0], ast.Name):
+        idx = lp.stmt.target.elts[0].id
+        start = 0
+        if len(it.args) > 1:
+            start = Folder(ctx.repo, mod.name).fold(it.args[1])
+        for k in it.keywords:
+            if k.arg == "start":
+                start = Folder(ctx.repo, mod.name).fold(k.value)
+        if start == 0:
+            pos_texts = {"%s + 1" % idx, "1 + %s" % idx}
+        elif start == 1:
+            pos_texts = {idx}
+        first_tests = {"%s == %s" % (idx, start)}
+    if not pos_texts:
+        raise AnalysisError("BCURMulti.parse: position of a part in the list not recognised (%s)" % ast.unparse(it))
+
     def per_iter(pred, what, key, exempt_first=False):
         gs = []
         for n in cfg.tests():
@@ -218,7 +252,7 @@ def c20_4(ctx):
         removed = {(g.node.id, g.pass_label) for g in gs}
         if exempt_first:
             for n in cfg.tests():
-                if lp.head in n.loops and ast.unparse(n.ast) == "cnt == 0":
+                if lp.head in n.loops and ast.unparse(n.ast) in first_tests:
                     removed.add((n.id, True))
         starts = []
         for a, label in lp.body_entry:
@@ -232,7 +266,7 @@ def c20_4(ctx):
             out.append(ctx.ok(spec, "every part: %s raises" % what, gs[0].node.ast, mod, key=key))
 
     def p_order(t):
-        if isinstance(t, ast.Compare) and isinstance(t.ops[0], (ast.NotEq, ast.Eq)) and {ast.unparse(t.left), ast.unparse(t.comparators[0])} == {"cnt + 1", "entry_x"}:
+        if isinstance(t, ast.Compare) and isinstance(t.ops[0], (ast.NotEq, ast.Eq)) and (({ast.unparse(t.left), ast.unparse(t.comparators[0])} - pos_texts) == {"entry_x"} and ({ast.unparse(t.left), ast.unparse(t.comparators[0])} & pos_texts)):
             return BAD_TRUE if isinstance(t.ops[0], ast.NotEq) else BAD_FALSE
         return None
 
@@ -314,10 +348,52 @@ def c20_6(ctx):
         out.append(ctx.ok(spec, "chunks are encoded[i·c:(i+1)·c] for i < n with c = ⌈L/n⌉: contiguous, and n·c ≥ L > (n-1)·c so they cover [0, L) with a non-empty last chunk", fn, mod, key="tiling"))
     else:
         out.append(ctx.err(spec, "chunking idiom not recognised: missing %s" % missing, fn, mod))
-    if "f'ur:bytes/{cnt + 1}of{number_of_chunks}/{self.enc_hash}/" in src:
-        out.append(ctx.ok(spec, "each part carries (i+1)ofn and the shared digest", fn, mod, key="header"))
+    # header `ur:bytes/<x>of<n>/<digest>/<chunk>` with x the 1-based position of the chunk
+    fs = [j for j in ast.walk(fn) if isinstance(j, ast.JoinedStr) and j.values and isinstance(j.values[0], ast.Constant) and str(j.values[0].value).startswith("ur:bytes/")]
+    if not fs:
+        out.append(ctx.err(spec, "the part header f-string `ur:bytes/…` was not found", fn, mod))
+        return out
+    j = fs[0]
+    consts = [v.value for v in j.values if isinstance(v, ast.Constant)]
+    vals = [v.value for v in j.values if isinstance(v, ast.FormattedValue)]
+    # where does the position variable start?
+    starts = {}
+    for lp_ in ast.walk(fn):
+        if isinstance(lp_, (ast.For, ast.comprehension)):
+            it, tg = lp_.iter, lp_.target
+            if isinstance(it, ast.Call) and call_name(it) == "range" and isinstance(tg, ast.Name):
+                starts[tg.id] = 0 if len(it.args) == 1 else Folder(ctx.repo, mod.name).fold(it.args[0])
+            elif isinstance(it, ast.Call) and call_name(it) == "enumerate" and isinstance(tg, ast.Tuple) and isinstance(tg.elts[0], ast.Name):
+                st_ = 0
+                if len(it.args) > 1:
+                    st_ = Folder(ctx.repo, mod.name).fold(it.args[1])
+                for k in it.keywords:
+                    if k.arg == "start":
+                        st_ = Folder(ctx.repo, mod.name).fold(k.value)
+                starts[tg.elts[0].id] = st_
+    verdict = None
+    if consts[:3] == ["ur:bytes/", "of", "/"] and len(vals) >= 3:
+        x = vals[0]
+        base = None
+        if isinstance(x, ast.Name) and x.id in starts:
+            base = starts[x.id]
+        elif isinstance(x, ast.BinOp) and isinstance(x.op, ast.Add):
+            nm = x.left if isinstance(x.left, ast.Name) else (x.right if isinstance(x.right, ast.Name) else None)
+            c = x.right if nm is x.left else x.left
+            if nm is not None and nm.id in starts and isinstance(starts[nm.id], int) and isinstance(Folder(ctx.repo, mod.name).fold(c), int):
+                base = starts[nm.id] + Folder(ctx.repo, mod.name).fold(c)
+        if base == 1 and ast.unparse(vals[2]) == "self.enc_hash":
+            verdict = True
+        elif isinstance(base, int) and base != 1:
+            verdict = "the position written into the header starts at %d (`%s`); parts are numbered 1ofN … NofN" % (base, ast.unparse(x))
+        elif base == 1:
+            verdict = "the third field is `%s`, not the shared digest self.enc_hash" % ast.unparse(vals[2])
+    if verdict is True:
+        out.append(ctx.ok(spec, "each part carries (i+1)ofn and the shared digest", j, mod, key="header"))
+    elif verdict:
+        out.append(ctx.bad(spec, "part header: %s" % verdict, j, mod, key="header"))
     else:
-        out.append(ctx.bad(spec, "part header is not `ur:bytes/<i+1>of<n>/<digest>/…`", fn, mod, key="header"))
+        out.append(ctx.err(spec, "part header `%s` not recognised" % ast.unparse(j)[:100], j, mod))
     return out
 
 
